@@ -89,7 +89,7 @@ type tbl struct {
 	name   string
 	rows   []interface{} // pointers to struct values
 	eq     func(a, b interface{}) bool
-	noStr  bool // the string representation of a []byte driver value is not a legal source for this column
+	noStr  bool // the string representation of a []byte driver value is not a source this column's own Scan method accepts (a VARBINARY column arrives as a Go string in change-log rows: for thunder's own decoding it is a legal source)
 	filter bool // V can be used as a filter value (comparable scalar)
 }
 
@@ -263,8 +263,8 @@ func tables(s *sqlgen.Schema) []tbl {
 	// tags
 	add("t_text", RowStr[TextT]{}, []interface{}{&RowStr[TextT]{1, TextT{}}, &RowStr[TextT]{2, TextT{3, -4}}}, tbl{})
 	add("t_ptext", RowStr[*TextT]{}, []interface{}{&RowStr[*TextT]{1, nil}, &RowStr[*TextT]{2, &TextT{5, 6}}}, tbl{})
-	add("t_bin", RowBin[BinT]{}, []interface{}{&RowBin[BinT]{1, BinT{X: []byte{}}}, &RowBin[BinT]{2, BinT{X: []byte{1, 2, 0}}}}, tbl{noStr: true})
-	add("t_pbin", RowBin[*BinT]{}, []interface{}{&RowBin[*BinT]{1, nil}, &RowBin[*BinT]{2, &BinT{X: []byte{9}}}}, tbl{noStr: true})
+	add("t_bin", RowBin[BinT]{}, []interface{}{&RowBin[BinT]{1, BinT{X: []byte{}}}, &RowBin[BinT]{2, BinT{X: []byte{1, 2, 0}}}}, tbl{})
+	add("t_pbin", RowBin[*BinT]{}, []interface{}{&RowBin[*BinT]{1, nil}, &RowBin[*BinT]{2, &BinT{X: []byte{9}}}}, tbl{})
 	add("t_proto", RowBin[*thunderpb.Field]{}, []interface{}{&RowBin[*thunderpb.Field]{1, nil},
 		&RowBin[*thunderpb.Field]{2, &thunderpb.Field{Kind: thunderpb.FieldKind_Int, Value: &thunderpb.Field_Int{Int: -3}}},
 		&RowBin[*thunderpb.Field]{3, &thunderpb.Field{Kind: thunderpb.FieldKind_String, Value: &thunderpb.Field_String_{String_: "s"}}}}, tbl{noStr: true})
